@@ -365,16 +365,32 @@ pub fn run(case: &Case, ctx: &mut Ctx<'_>) {
                 ctx.item();
                 let sup: DwarfSections<Vec<u8>> = DwarfSections::load(|id| -> Result<Vec<u8>, gimli::Error> { Ok(m2.get(id).to_vec()) }).unwrap();
                 let d = owned.borrow_with_sup(Some(&sup), |v| EndianSlice::new(&v[..], LittleEndian));
-                check_content(ctx, "borrow_with_sup main", &d, &m);
+                // the owned buffers of .debug_loc / .debug_loclists, identified by their content
+                // (each id has its own marker) while they are handed to a borrow closure
+                let ptrs = |s: &DwarfSections<Vec<u8>>, mk: &Markers| -> (u64, u64) {
+                    let (mut a, mut b) = (0u64, 0u64);
+                    let _ = s.borrow(|v| {
+                        if v[..] == *mk.get(SectionId::DebugLoc) {
+                            a = v.as_ptr() as u64;
+                        }
+                        if v[..] == *mk.get(SectionId::DebugLocLists) {
+                            b = v.as_ptr() as u64;
+                        }
+                        EndianSlice::new(&v[..], LittleEndian)
+                    });
+                    (a, b)
+                };
+                let (lp, lp2) = (ptrs(&owned, &m), ptrs(&sup, &m2));
+                check_content(ctx, "borrow_with_sup main", &d, &m, lp);
                 match d.sup() {
-                    Some(s) => check_content(ctx, "borrow_with_sup sup", s, &m2),
+                    Some(s) => check_content(ctx, "borrow_with_sup sup", s, &m2, lp2),
                     None => ctx.violate("c17_routing", "borrow_with_sup lost the sup".into()),
                 }
                 #[allow(deprecated)]
                 let d2 = d.borrow(|r| *r);
-                check_content(ctx, "Dwarf::borrow", &d2, &m);
+                check_content(ctx, "Dwarf::borrow", &d2, &m, lp);
                 match d2.sup() {
-                    Some(s) => check_content(ctx, "Dwarf::borrow sup", s, &m2),
+                    Some(s) => check_content(ctx, "Dwarf::borrow sup", s, &m2, lp2),
                     None => ctx.violate("c17_routing", "Dwarf::borrow lost the sup".into()),
                 }
             } else {
@@ -408,7 +424,7 @@ pub fn run(case: &Case, ctx: &mut Ctx<'_>) {
     ctx.end();
 }
 
-fn check_content<'a>(ctx: &mut Ctx<'_>, what: &str, d: &Dwarf<R<'a>>, m: &Markers) {
+fn check_content<'a>(ctx: &mut Ctx<'_>, what: &str, d: &Dwarf<R<'a>>, m: &Markers, loc_ptrs: (u64, u64)) {
     macro_rules! c {
         ($f:expr, $id:expr) => {{
             let got = $f.reader().slice();
@@ -432,9 +448,14 @@ fn check_content<'a>(ctx: &mut Ctx<'_>, what: &str, d: &Dwarf<R<'a>>, m: &Marker
     c!(d.debug_types, SectionId::DebugTypes);
     c!(d.ranges.debug_ranges(), SectionId::DebugRanges);
     c!(d.ranges.debug_rnglists(), SectionId::DebugRngLists);
-    for (sid, want_id) in [(SectionId::DebugLoc, SectionId::DebugLoc), (SectionId::DebugLocLists, SectionId::DebugLocLists)] {
-        // locations has no accessor: probe with the content-independent pointer identity
-        let _ = (sid, want_id);
+    // `locations` has no accessor: probe with the content-independent pointer identity of the
+    // owned buffers the readers were borrowed from
+    for (ptr, want) in [(loc_ptrs.0, SectionId::DebugLoc), (loc_ptrs.1, SectionId::DebugLocLists)] {
+        let got = d.locations.lookup_offset_id(ReaderOffsetId(ptr));
+        ev!(ctx, "{} locations {} -> {:?}", what, want.name(), got);
+        if got != Some((want, 0)) {
+            ctx.violate("c17_routing", format!("{}: the buffer loaded for {} is seen by `locations` as {:?}", what, want.name(), got));
+        }
     }
 }
 
